@@ -1,6 +1,43 @@
-(* C08 — No untrusted input can crash the library. *)
-From Coq Require Import String List.
-From CDI Require Import Base Parser ParserProofs.
-Theorem C08_placeholder : forall s, fst (parse_qualified_name s) <> Panic.
+(* C08 — No untrusted input can crash the library: the modelled entry points never panic, for EVERY input.
+   (Termination: every modelled function is a structural recursion over finite strings / lists, as Go's range loops are.) *)
+From Coq Require Import String Ascii List Bool Arith ZArith.
+From CDI Require Import Base SpecModel Parser ParserProofs Annotations AnnotationsProofs Version VersionProofs
+  Paths Oci Apply ApplySpec ApplyProofs Cache CacheProofs InjectSpec InjectProofs NoPanic.
+Import ListNotations.
+Open Scope string_scope.
+
+(* every device-name string: ParseQualifiedName / IsQualifiedName and the validators *)
+Theorem C08_parse_qualified_name_total : forall s, fst (parse_qualified_name s) <> Panic.
 Proof. exact parse_total. Qed.
-Print Assumptions C08_placeholder.
+Print Assumptions C08_parse_qualified_name_total.
+(* every annotation map, plugin name, device id and device list *)
+Theorem C08_parse_annotations_total : forall m, parse_annotations m <> Panic.
+Proof. exact parse_annotations_total. Qed.
+Print Assumptions C08_parse_annotations_total.
+Theorem C08_annotation_key_total : forall p id, annotation_key p id <> Panic.
+Proof. exact annotation_key_total. Qed.
+Print Assumptions C08_annotation_key_total.
+Theorem C08_annotation_value_total : forall ds, annotation_value ds <> Panic.
+Proof. exact annotation_value_total. Qed.
+Print Assumptions C08_annotation_value_total.
+Theorem C08_update_annotations_total : forall m p id ds, fst (update_annotations m p id ds) <> Panic.
+Proof. exact update_total. Qed.
+Print Assumptions C08_update_annotations_total.
+(* every Spec value: the version requirement (incl. nil list entries) *)
+Theorem C08_validate_version_total : forall s, validate_version s <> Panic.
+Proof. exact validate_version_total. Qed.
+Print Assumptions C08_validate_version_total.
+(* every OCI spec (unique device paths / mount destinations) with every valid edit list: Apply never dereferences nil *)
+Theorem C08_apply_no_panic : forall host e o,
+  wf_initial o = true -> valid_edits e = true -> snd (apply host e o) <> 2.
+Proof. intros host e o W V. exact (proj1 (apply_meets_spec host e o W V)). Qed.
+Print Assumptions C08_apply_no_panic.
+(* every OCI spec injected with every request from every cache of loaded (valid) Specs *)
+Theorem C08_inject_no_panic : forall host fl o names,
+  loaded_valid fl -> wf_initial o = true -> snd (fst (inject_spec host fl (Some o) names)) <> 2.
+Proof. exact inject_no_panic. Qed.
+Print Assumptions C08_inject_no_panic.
+(* C08_no_panic_partial: the theorems stop at the document tree.  Panics or hangs inside the YAML/JSON scanners, gojsonschema
+   and regexp on raw bytes are not modelled; they are searched for by the byte-level stream of the harness (mutations of
+   valid Spec files through ReadSpec / ParseSpec / a live auto-refresh cache in a child process / schema validation, each
+   under a panic guard and a watchdog), which is testing, not proof. *)
